@@ -371,6 +371,48 @@ def _copy(it, ctx, a, k):
     return x
 
 
+@op("copy.deepcopy")
+def _deepcopy(it, ctx, a, k):
+    """structural clone of the object graph reachable from the argument (objects, lists, dicts, tuples, tensors are new cells holding the
+    same values; aliasing inside the graph is preserved through the memo)"""
+    from .dom_elem import VTensor
+    memo = {}
+
+    def clone(x):
+        if id(x) in memo:
+            return memo[id(x)]
+        if isinstance(x, VObj):
+            o = VObj(x.cls, {})
+            memo[id(x)] = o
+            o.ghost = dict(x.ghost)
+            o.label = getattr(x, "label", None)
+            for f, v in x.fields.items():
+                o.fields[f] = clone(v)
+            return o
+        if isinstance(x, VList):
+            r = VList([])
+            memo[id(x)] = r
+            r.items = [clone(v) for v in x.items]
+            return r
+        if isinstance(x, VDict):
+            r = VDict()
+            memo[id(x)] = r
+            r.d = {kk: clone(v) for kk, v in x.d.items()}
+            return r
+        if isinstance(x, VTuple):
+            r = VTuple([clone(v) for v in x.items], **({"is_size": True} if getattr(x, "is_size", False) else {}))
+            memo[id(x)] = r
+            return r
+        if isinstance(x, VTensor):
+            r = x.frozen()
+            r.meta = dict(x.meta)
+            memo[id(x)] = r
+            return r
+        return x
+
+    return clone(a[0])
+
+
 @op("math.sqrt")
 def _msqrt(it, ctx, a, k):
     h = it.optable.get("real.sqrt")
